@@ -15,6 +15,30 @@ enum Want {
     Error(u64),
 }
 
+/// Sizes of the data replies the server will give for one transfer of `size` bytes, and the index of
+/// the request that is answered with an error instead (if the transfer gets that far).
+fn plan(ps: &PictureServer, size: usize) -> (Vec<usize>, Option<(usize, u64)>) {
+    let limit = ps.limit.max(1);
+    let mut chunks = Vec::new();
+    let mut served = 0;
+    let mut i = 0;
+    loop {
+        if let Some((n, code)) = ps.fail_at {
+            if n >= 1 && n == i {
+                return (chunks, Some((i, code)));
+            }
+        }
+        let cap = if ps.pattern.is_empty() { usize::MAX } else { ps.pattern[i % ps.pattern.len()].max(1) };
+        let n = (size - served).min(limit).min(cap);
+        chunks.push(n);
+        served += n;
+        i += 1;
+        if served >= size {
+            return (chunks, None);
+        }
+    }
+}
+
 fn expected(ps: &PictureServer) -> (Want, bool) {
     let cover = |fallback: bool| -> (Want, bool) {
         match &ps.cover {
@@ -41,17 +65,25 @@ pub fn check(script: &Script) -> CaseResult {
     }
     r.nontrivial = false;
     let Some(ps) = &script.picture else { return r };
-    let (want, fallback) = expected(ps);
+    let (mut want, fallback) = expected(ps);
     let size = match &want {
         Want::Art(Some((b, _))) => Some(b.len()),
         _ => None,
     };
     let limit = ps.limit.max(1);
-    let chunks = size.map(|s| s.div_ceil(limit).max(1));
+    let (sizes, failing) = size.map_or((Vec::new(), None), |s| plan(ps, s));
+    if let Some((_, code)) = failing {
+        // a server error on a continuation request is propagated like any other
+        want = Want::Error(code);
+    }
+    let chunks = size.map(|_| sizes.len() + usize::from(failing.is_some()));
+    r.class_if(failing.is_some(), "error_on_a_continuation_request");
+    r.class_if(!ps.pattern.is_empty() && sizes.windows(2).any(|w| w[0] != w[1] && w[1] != *sizes.last().unwrap()), "chunk_sizes_vary_mid_transfer");
     r.class_if(fallback, "fallback_to_cover_file");
     r.class_if(matches!(want, Want::Error(_)), "server_error");
     r.class_if(matches!(want, Want::Art(None)), "absent");
     r.class_if(size == Some(0), "size_0");
+    let _ = limit;
     r.class_if(chunks == Some(1) && size != Some(0), "single_chunk");
     r.class_if(chunks.is_some_and(|c| c >= 2), "several_chunks");
     r.class_if(size.is_some_and(|s| s % limit != 0 && s > limit), "size_not_multiple_of_limit");
@@ -105,10 +137,11 @@ pub fn check(script: &Script) -> CaseResult {
             "readpicture"
         };
         let rest: Vec<&(&str, u64)> = it.collect();
-        match (&want, size) {
-            (Want::Art(Some(_)), Some(size)) => {
+        match (failing.is_some() || matches!(want, Want::Art(Some(_))), size) {
+            (true, Some(_)) => {
                 // continuation requests: same command, offset = bytes served so far
-                let mut served = size.min(limit) as u64;
+                let mut served = sizes.first().copied().unwrap_or(0) as u64;
+                let mut k = 1;
                 for (cmd, off) in &rest {
                     if *cmd != data_cmd {
                         r.fail(format!("continuation request uses {cmd}, the data came from {data_cmd}: {log:?}"));
@@ -118,11 +151,12 @@ pub fn check(script: &Script) -> CaseResult {
                         r.fail(format!("continuation request at offset {off}, {served} bytes were served so far: {log:?}"));
                         return r;
                     }
-                    served += (size as u64 - served).min(limit as u64);
+                    served += sizes.get(k).copied().unwrap_or(0) as u64;
+                    k += 1;
                 }
                 let total = 1 + rest.len();
                 if total != chunks.unwrap() {
-                    r.fail(format!("{total} data requests for {size} bytes at limit {limit}, expected {}: {log:?}", chunks.unwrap()));
+                    r.fail(format!("{total} data requests for {size:?} bytes at limit {limit} (reply sizes {sizes:?}, failing {failing:?}), expected {}: {log:?}", chunks.unwrap()));
                     return r;
                 }
             }
@@ -178,7 +212,14 @@ fn strategy(_tier: Tier) -> BoxedStrategy<Script> {
         .prop_flat_map(|limit| (Just(limit), source(limit, true), source(limit, false)))
         .prop_flat_map(|(limit, embedded, cover)| {
             (
-                Just(PictureServer { embedded, cover, limit }),
+                (
+                    Just(embedded),
+                    Just(cover),
+                    Just(limit),
+                    prop_oneof![3 => Just(Vec::new()), 2 => prop::collection::vec(1..=limit.max(2), 1..5usize)],
+                    prop::option::weighted(0.15, (1..6usize, prop_oneof![Just(50u64), Just(52), Just(5), Just(1), 2..60u64])),
+                )
+                    .prop_map(|(embedded, cover, limit, pattern, fail_at)| PictureServer { embedded, cover, limit, pattern, fail_at }),
                 any::<u64>(),
                 simgen::seg_pattern(),
                 prop::collection::vec(
